@@ -373,8 +373,17 @@ def precondition_set(ctx, c):
         hard = []
         soft = []
         constrained = set()
+        pairs = set()
         asserts_seen = set()
         for n, parents in walk_parents(f["body"]):
+            # width arithmetic on a numeric parameter (`width(e) + by`): overflows on a huge input number
+            if n.get("k") == "binary" and n["op"] in ("+", "*") and str(n.get("ty", "")).startswith(("u", "i")):
+                sides = [peel(n["l"]), peel(n["r"])]
+                for s_i, s_ in enumerate(sides):
+                    o_ = sides[1 - s_i]
+                    if s_.get("k") == "local" and s_["id"] in ids and o_.get("k") != "lit":
+                        soft.append("`%s` overflow on `%s`" % (n["op"], show(n)[:40]))
+                        constrained.add(pidx[s_["id"]])
             in_dbg = any(m.startswith("debug_assert") for a in (n,) + parents for m in mac_names(a))
             if n.get("k") == "mcall" and n["name"] in ("unwrap", "expect"):
                 used = {pidx[x["id"]] for x in walk(n["recv"]) if x.get("k") == "local" and x["id"] in ids}
@@ -401,23 +410,133 @@ def precondition_set(ctx, c):
                         used = {pidx[x["id"]] for x in walk(a["scrut"]) if x.get("k") == "local" and x["id"] in ids}
                         if used:
                             constrained |= used
+                            if len(used) == 2:
+                                pairs.add(tuple(sorted(used)))
                             names = set(mac_names(n))
                             (soft if any(m.startswith("debug_assert") for m in names) else hard).append("assert_eq!" if not any(m.startswith("debug_assert") for m in names) else "debug_assert_eq!")
                         break
         if hard or soft:
-            out[name] = {"release": bool(hard), "how": sorted(set(hard + soft))[:3], "params": constrained}
+            out[name] = {"release": bool(hard), "how": sorted(set(hard + soft))[:3], "params": constrained, "pairs": pairs}
     ctx.extra["builders_with_type_preconditions"] = {k: v["how"] for k, v in sorted(out.items())}
     ctx.floor("R18.3", "builders with kind/width preconditions", len(out), 25)
     return out
 
 
+def width_source(a, defs):
+    """where the width of a builder operand comes from when that is the input: the operand itself is an input expression, or it is a
+    constant built by a Context builder from an input-derived width"""
+    if a.get("k") != "local":
+        return None
+    s_ = operand_source(a["id"], defs, 0)
+    if s_:
+        return s_
+    init = simple_let_init(defs, a["id"])
+    c = strip_try(init) if init is not None else {}
+    if c.get("k") == "mcall" and (callee(c) or "").startswith(CTX + "::"):
+        for x in c["args"]:
+            x = peel(x)
+            if x.get("k") == "local":
+                s_ = operand_source(x["id"], defs, 0)
+                if s_:
+                    return "constant of " + s_
+    return None
+
+
+def derived_locals(aid, defs, fn_body):
+    """the operand and the locals computed from it (`let w = require_bv(a)?`, `let t = a.get_type(ctx)`, tuple lets), two levels"""
+    out = {aid}
+    for _ in range(3):
+        for n in walk(fn_body):
+            if n.get("k") == "let" and "init" in n and any(x.get("k") == "local" and x["id"] in out for x in walk(n["init"])):
+                ini = strip_try(n["init"])
+                if ini.get("k") == "mcall" and (callee(ini) or "").startswith(CTX + "::"):
+                    continue          # a new expression built from it is a different value
+                if n["pat"].get("k") == "ptuple" and peel(n["init"]).get("k") == "tuple":
+                    for sub, e in zip(n["pat"].get("pats", n["pat"].get("elems", [])), peel(n["init"])["elems"]):
+                        if any(x.get("k") == "local" and x["id"] in out for x in walk(e)):
+                            out |= {i for _, i in pat_bindings(sub)}
+                    continue
+                out |= {i for _, i in pat_bindings(n["pat"])}
+    return out
+
+
+def related_widths(ai, aj, call, ix, f, fns, defs):
+    A = derived_locals(ai["id"], defs, f["body"]) if ai.get("k") == "local" else set()
+    B = derived_locals(aj["id"], defs, f["body"]) if aj.get("k") == "local" else set()
+    # one side is a constant built from the other side's own width
+    for x, other in ((ai, B), (aj, A)):
+        if x.get("k") == "local":
+            init = simple_let_init(defs, x["id"])
+            c = strip_try(init) if init is not None else {}
+            if c.get("k") == "mcall" and (callee(c) or "").startswith(CTX + "::"):
+                locs = [peel(y) for y in c["args"]]
+                locs = [y for y in locs if y.get("k") == "local"]
+                if locs and all(y["id"] in other for y in locs):
+                    return True
+    def relates(region):
+        for n, parents in walk_parents(region):
+            par = parents[-1] if parents else None
+            subj = None
+            if n.get("k") == "mcall" and par is not None and par.get("k") == "try" and (callee(n) or "").startswith(P):
+                subj = n
+            elif n.get("k") in ("if", "match"):
+                rejects = any(x.get("k") == "return" or (x.get("k") == "ctor" and callee(x).endswith("Result::Err")) or (x.get("k") == "mcall" and callee(x) == P + "add_error") for x in walk(n))
+                if rejects:
+                    subj = n["cond"] if n["k"] == "if" else n["scrut"]
+            if subj is not None:
+                locs = {x["id"] for x in walk(subj) if x.get("k") == "local"}
+                if locs & A and locs & B:
+                    return True
+        return False
+    pins = {"A": set(), "B": set()}
+    def pin(region):
+        """each side checked (fallibly) against the same constant type pins both widths"""
+        for n, parents in walk_parents(region):
+            par = parents[-1] if parents else None
+            if n.get("k") == "mcall" and par is not None and par.get("k") == "try" and callee(n) == P + "check_type":
+                x, y = n["args"][0], n["args"][1]
+                for u, v in ((x, y), (y, x)):
+                    lu = {z["id"] for z in walk(u) if z.get("k") == "local"}
+                    lv = {z["id"] for z in walk(v) if z.get("k") == "local"}
+                    if lu and not lv:
+                        if lu <= A:
+                            pins["A"].add(show(peel(v)))
+                        if lu <= B:
+                            pins["B"].add(show(peel(v)))
+        return bool(pins["A"] & pins["B"])
+    anc = ix.ancestors(call)
+    for blk in anc:
+        if blk.get("k") != "blockexpr":
+            continue
+        for st in blk["b"]["stmts"]:
+            if contains(st, call):
+                break
+            s_ = unsemi(st)
+            sel = enclosing_op(call, ix)
+            if s_.get("k") == "match" and sel is not None and show(s_["scrut"]) == sel[0]:
+                arm = pick_arm(s_, sel[1])
+                if arm is not None and (relates(arm["body"]) or pin(arm["body"])):
+                    return True
+                continue
+            if s_.get("k") == "if" and sel is not None and peel(s_["cond"]).get("k") == "binary" and show(peel(s_["cond"])["l"]) == sel[0]:
+                cs = show(peel(s_["cond"])).replace(" ", "")
+                if cs == '(%s=="%s")' % (sel[0].replace(" ", ""), sel[1]) and (relates(s_["then"]) or pin(s_["then"])):
+                    return True
+                continue
+            if relates(st) or pin(st):
+                return True
+    return False
+
+
 def builder_calls(ctx, reach, fns, pre):
     n_calls = 0
+    n_pairs = 0
     for p in reach:
         f = fns[p]
         ix = Index(f["body"])
         defs = local_defs(f)
         per = {}
+        perp = {}
         for n in ix.nodes:
             if n.get("k") != "mcall" or not (callee(n) or "").startswith(CTX + "::"):
                 continue
@@ -434,6 +553,21 @@ def builder_calls(ctx, reach, fns, pre):
                     src = operand_source(a["id"], defs, 0)
                     if src:
                         tainted.append((a, src))
+            # same-width pairs (`debug_assert_eq!(width(a), width(b))`): when either side comes from the input the two must be related
+            for (pi, pj) in sorted(pre[b].get("pairs", ())):
+                if max(pi, pj) >= len(n["args"]):
+                    continue
+                ai, aj = peel(n["args"][pi]), peel(n["args"][pj])
+                srcs = [width_source(x, defs) for x in (ai, aj)]
+                if not any(srcs):
+                    continue
+                n_pairs += 1
+                perp[b] = perp.get(b, 0) + 1
+                ok = related_widths(ai, aj, n, ix, f, fns, defs)
+                ctx.inst("R18.3", "%s:%s:same-width#%d" % (p.split("::")[-1], b, perp[b]), ok, n["sp"],
+                         "%s calls Context::%s, which aborts unless `%s` and `%s` have the same width, on operands from the input (%s) whose widths nothing relates: no dominating check mentions both and neither is built from the other's width; a line whose declared sort differs from its operand aborts the reader" % (
+                             p, b, show(ai), show(aj), "; ".join(x for x in srcs if x)),
+                         sample={"fn": p, "builder": b, "operands": srcs})
             if not tainted:
                 continue
             n_calls += 1
@@ -444,6 +578,7 @@ def builder_calls(ctx, reach, fns, pre):
                          p, b, "; ".join(pre[b]["how"]), "" if pre[b]["release"] else "; debug builds only", [show(a) for a, _ in tainted]),
                      sample={"fn": p, "builder": b, "operands": [src for _, src in tainted]})
     ctx.floor("R18.3", "builder calls on input operands", n_calls, 30)
+    ctx.extra["same_width_pairs_on_input_operands"] = n_pairs
     # R18.4: unwrap on kind-dependent data
     n_u = 0
     for p in reach:
@@ -524,10 +659,19 @@ def operand_source(lid, defs, depth):
         return None
     init = simple_let_init(defs, lid)
     if init is None:
+        # `if let Some(signal) = self.signal_map.get(&id)`: an expression stored for an earlier line, of whatever kind that line had
+        d = defs.get(lid)
+        if d and d[0] in ("arm", "letexpr"):
+            subj = strip_try(d[1]["scrut"] if d[0] == "arm" else d[1]["init"])
+            if subj.get("k") == "mcall" and subj["name"] in ("get", "get_mut", "remove") and "ExprRef" in str(subj.get("ty", "")) \
+                    and peel(subj["recv"]).get("k") == "field" and "Map" in str(peel(subj["recv"]).get("ty", "")):
+                return "expression stored for the line id looked up in `%s`" % show(peel(subj["recv"]))
         return None
     c = strip_try(init)
     if c.get("k") == "mcall":
         cal = callee(c) or ""
+        if cal == P + "get_bv_width":
+            return "width of the sort in token %s" % c08.tok_index(c["args"][1])
         if cal == P + "get_expr_from_line_id":
             return "expression id in token %s" % c08.tok_index(c["args"][1])
         if cal == P + "parse_width_int":
@@ -575,6 +719,35 @@ def kind_helpers(fns):
     return _KIND_HELPERS
 
 
+_RANGE_HELPERS = {}
+
+
+def range_helpers(fns):
+    """Parser methods that compare a numeric parameter and can fail: {path: [param indices compared]}"""
+    if _RANGE_HELPERS.get("_done"):
+        return _RANGE_HELPERS
+    for p, f in fns.items():
+        if not p.startswith(P):
+            continue
+        if not any((x.get("k") == "ctor" and callee(x).endswith("Result::Err")) or (x.get("k") == "mcall" and callee(x) == P + "add_error") for x in walk(f["body"])):
+            continue
+        k = 0
+        cmp = []
+        for q in f["params"]:
+            b = binding_of_pat(q)
+            if not b or b[0] == "self":
+                continue
+            for y in walk(f["body"]):
+                if y.get("k") == "if" and any(z.get("k") == "binary" and z["op"] in ("<", "<=", ">", ">=") and any(w.get("k") == "local" and w["id"] == b[1] for w in walk(z)) for z in walk(y["cond"])):
+                    cmp.append(k)
+                    break
+            k += 1
+        if cmp:
+            _RANGE_HELPERS[p] = cmp
+    _RANGE_HELPERS["_done"] = True
+    return _RANGE_HELPERS
+
+
 def checks_in(region, aid, defs, fns, is_int):
     """does this code region contain a fallible test of operand `aid`'s kind (or, for integers, range)?"""
     helpers = kind_helpers(fns)
@@ -584,6 +757,10 @@ def checks_in(region, aid, defs, fns, is_int):
             cal = callee(n) or ""
             if cal in helpers:
                 for ti in helpers[cal]:
+                    if ti < len(n["args"]) and is_local(n["args"][ti], aid):
+                        return True
+            if is_int and cal in range_helpers(fns):
+                for ti in range_helpers(fns)[cal]:
                     if ti < len(n["args"]) and is_local(n["args"][ti], aid):
                         return True
             if cal == P + "check_type":
